@@ -206,7 +206,9 @@ def script_for(rnd, plan, m, exports, shape, tsize, gtypes):
     if memk != 'none':
         emit('c 0 %d 0x10 0x77' % plan.fk('poke'), 'poke', 0)
         emit('c 0 %d 0x3000 0x55' % plan.fk('poke'), 'poke', 0)
-    emit('I 1', 'inst', 1)
+    # the second instance is either instantiated afresh or created as a CHILD of the first (common.newChild, what thread-spawn uses):
+    # without shared memories a child is observably a fresh instance built with the same resolver, whose start function runs on the child
+    emit('N 0 1' if rnd.random() < 0.4 else 'I 1', 'inst', 1)
     emit('t', 'starttrace', 1)
     dump(1)
     dump(0)
@@ -232,7 +234,7 @@ def script_for(rnd, plan, m, exports, shape, tsize, gtypes):
         victim = rnd.randint(0, 1)
         fresh = rnd.choice([victim, 2])
         emit('F %d' % victim, 'free', victim)
-        emit('I %d' % fresh, 'inst', fresh)
+        emit(('N %d %d' % (1 - victim, fresh)) if rnd.random() < 0.4 else 'I %d' % fresh, 'inst', fresh)
         emit('t', 'starttrace', fresh)
         dump(fresh)
         dump(1 - victim)
